@@ -283,7 +283,11 @@ def run_histories(tasks: list[dict], fn=run_history, freeze_limit: float = FREEZ
         f = _POOL.submit(_call, fn, tasks[i], i)
         try:
             outs[i] = f.result(timeout=freeze_limit if i in seen_running else 4 * freeze_limit)
-        except (cf.TimeoutError, cf.process.BrokenProcessPool):
+        except cf.process.BrokenProcessPool as exc:
+            # the process DIED (initialiser failure, crash, killed): that is not a freeze and nothing can be attributed
+            shutdown_pool()
+            raise MachineryError(f"a worker process died while running a task alone: {exc}") from exc
+        except cf.TimeoutError:
             n_frozen += 1
             outs[i] = {"frozen": True, "error": None,
                        "detail": f"the worker process did not finish the task within {int(freeze_limit)} s, neither "
